@@ -78,6 +78,10 @@ CHECKS = {
    "the same enumeration as C08 with a structural oracle on every returned description (abutting blocks / one-sided gaps / empty pairs, spans, per-run reported score = recomputed score with gap-open once per run, Letters = QLetters, Format rows) plus an enumerated family of ill-typed calls that must return errors",
    "Every alignment of C08's space; ill-typed calls: an illegal letter at every position of either sequence, distinct alphabet objects, mixed Letters/QLetters, nil alphabet, alphabet without leading gap, ragged, non-square, undersized and empty matrices, for each of the six aligners.",
    "Reported scores are compared per maximal run of equal-kind pairs (a gap run may be split over consecutive pairs)."),
+ "C14": (E3, "exploration", "DESIGN.md §3 C14",
+   "bounded-exhaustive enumeration of filter parameters x tiny sequences, and of planted-match geometries (every target/query placement relative to the tube grid and the recycling tick, every substitution pattern) on the real Filter with a real in-memory sorter; brute-force oracle over all window pairs",
+   "Space A: every (k,n,e,offset) with k in {2,3,4}, n<=8, e<=2, offset up to e+3 and positive threshold x 6 targets x every query of length n..6 (7) over {a,c,g,t}, and self comparison of every sequence of length <=7 (8); space B: k=4, n in {9,12,16}, 20 parameter sets, a plant at every (t0,q0) of a 40x100 grid with every pattern of <=e substitutions (quick: thinned pairs) so that every diagonal residue and every tick phase occurs, including tube widths below k; space C: PALS-like parameters on sequences of 90..420 letters.",
+   "kmerindex.MinKmerLen lowered by the harness; sequences over a,c,g,t; hit coverage uses the band the merger builds from a hit ([-Diagonal, -Diagonal+offset+e-1], query interval [From,To))."),
 }
 PENDING = {}  # id -> reason, for properties not (yet) claimed
 
